@@ -158,7 +158,7 @@ func c10Specs() []gram.Named {
 	out = append(out, gram.Named{Name: "keyword-names", Spec: kw})
 	for _, n := range gram.Families() {
 		switch n.Name {
-		case "slr-expr", "nullable-chain", "ambig-expr-prec", "nonassoc-cmp", "lalr-not-nqlalr", "list-of-lists", "prec-literal", "duplicate-rule", "default-start", "rr-split-groups", "name-prefixes", "prec-of-plain-token":
+		case "precedence-directive", "default-start-not-first", "start-start-not-first", "slr-expr", "nullable-chain", "ambig-expr-prec", "nonassoc-cmp", "lalr-not-nqlalr", "list-of-lists", "prec-literal", "duplicate-rule", "default-start", "rr-split-groups", "name-prefixes", "prec-of-plain-token":
 			out = append(out, gram.Named{Name: "family-" + n.Name, Spec: n.Spec})
 		}
 	}
@@ -381,9 +381,11 @@ func c10Eval(w *Worker, c *c10Case) {
 	}
 	wantLvl := map[string]int{}
 	wantAssoc := map[string]symbol.E_Precedence{}
+	levelOnly := map[string]bool{} // %precedence: a level, no associativity to compare
 	for li, p := range spec.Prec {
 		for _, t := range p.Toks {
 			wantLvl[t] = li + 1
+			levelOnly[t] = p.Assoc == "precedence"
 			switch p.Assoc {
 			case "left":
 				wantAssoc[t] = symbol.LEFT
@@ -425,7 +427,7 @@ func c10Eval(w *Worker, c *c10Case) {
 		}
 		if !sy.IsNonTerminator {
 			if l, ok := wantLvl[name]; ok {
-				if sy.Prec != l || sy.PrecType != wantAssoc[name] {
+				if sy.Prec != l || (sy.PrecType != wantAssoc[name] && !levelOnly[name]) {
 					bad("precedence", fmt.Sprintf("token %s has level %d assoc %d, declared level %d assoc %d", name, sy.Prec, sy.PrecType, l, wantAssoc[name]))
 					return
 				}
